@@ -73,6 +73,14 @@ pub fn gen_sess_run(check: &str, seed: u64, tier: Tier, with_probes: bool) -> Ru
                 insert_parallel_contexts(&mut ops, &mut pr);
             }
         }
+        {
+            // (own stream, rare) a node whose three children are invocations of one fully symmetric
+            // four-slot class: 24^3 group-compatible variants of one e-node
+            let mut br = Rng::stream(seed ^ tries as u64, "big-variant-product");
+            if matches!(check, "C01" | "C02" | "C08" | "C09" | "C12") && br.chance(1, 300) {
+                insert_big_variant_product(&mut ops, &mut br);
+            }
+        }
         let n = pool_size(&ops);
         if n < 40 && Cc::universe_size(n, &all_terms(&ops)) <= cap {
             run.ops = ops;
@@ -212,6 +220,41 @@ pub fn relative_renamings(ft: &[S], fs: &[S], fresh: &[S]) -> Vec<BTreeMap<S, S>
     }
     rec(0, ft, fs, fresh, &mut Vec::new(), 0, &mut BTreeMap::new(), &mut out);
     out
+}
+
+/// A leaf `p4` with the full symmetric group on its four slots (a 4-cycle and a transposition are
+/// asserted) and two `t` nodes over three permuted invocations of it that differ only by permutations:
+/// the e-node has 24^3 group-compatible variants and the two terms must end up in one class.
+pub fn insert_big_variant_product(ops: &mut Vec<Op>, w: &mut Rng) {
+    let base: Vec<S> = vec![0, 1, 2, 3];
+    let leaf = |v: &Vec<S>| Tm::leaf("p4", v.clone());
+    let perm = |w: &mut Rng| -> Vec<S> {
+        let mut v = base.clone();
+        w.shuffle(&mut v);
+        v
+    };
+    let mk = |w: &mut Rng| Tm::node("t", vec![], vec![(vec![], leaf(&perm(w))), (vec![], leaf(&perm(w))), (vec![], leaf(&perm(w)))]);
+    let (t1, t2) = (mk(w), mk(w));
+    let new_ops = vec![
+        Op::new("union").t(leaf(&base)).t(leaf(&vec![1, 2, 3, 0])).i(0),
+        Op::new("union").t(leaf(&base)).t(leaf(&vec![1, 0, 2, 3])).i(0),
+        Op::new("add").t(t1),
+        Op::new("add").t(t2),
+    ];
+    // keep the history short: these operations are expensive
+    ops.truncate(3);
+    let mut pos = w.below(ops.len() + 1);
+    let late = w.chance(1, 2);
+    for (k, o) in new_ops.into_iter().enumerate() {
+        if late && k >= 2 {
+            // the parents exist before the symmetries are known
+            ops.insert(0, o);
+            pos += 1;
+        } else {
+            ops.insert(pos.min(ops.len()), o);
+            pos += 1;
+        }
+    }
 }
 
 /// Two parallel contexts `C[A]` and `C[B]` over two different two-slot terms A and B, where C also holds an
